@@ -139,7 +139,16 @@ def check_permute(ctx, form, dims_r, dims_c, perm, row_only, inv, dtype, dim_for
     if sorted(perm) == list(range(n)):
         ctx.count("cycle_type/" + str(gen.cycle_type(perm)))
     del args["data"]
-    return _compare(ctx, "permute_systems", desc, impl, model)
+    ok = _compare(ctx, "permute_systems", desc, impl, model)
+    # a relabelling moves entries and does nothing else: the same input times 2^-40 (entries ~1e-11, exact in floating point) must give the
+    # result times 2^-40 - "clean-up" steps with absolute tolerances are invisible on labels of order 1..1000
+    if ok and impl[0] == "ok" and not sparse and dtype in ("float64", "complex128") and ctx.evaluations % 5 == 0:
+        outs = _call(permute_systems, np.asarray(X) * 2.0 ** -40, list(perm), dim_py, row_only, inv)
+        ctx.count("permute/scaled/2^-40")
+        if outs[0] != "ok" or not np.array_equal(np.asarray(outs[1]), np.asarray(impl[1]) * 2.0 ** -40):
+            ctx.violation("permute_systems: the input scaled by 2^-40 does not give the output scaled by 2^-40", {"function": "permute_systems", "args": dict(desc, scale_exp=-40), "theorem": "permute_eq_spec (entries are moved, never changed)"})
+            return False
+    return ok
 
 
 def check_swap(ctx, form, dims_r, dims_c, sys, row_only, dim_form):
